@@ -442,6 +442,39 @@ theorem go_publisher_ramp_caller_partial (r : Req) (height : Int) (est : Option 
       rw [this]; exact Int.min_le_right _ _
   exact Ramp.weaken_hi hmin (Ramp.weaken_lo hlow hr)
 
+/-! ## the int64 domain of `FeeForWeight` -/
+
+/-- inside the int64 range of `rate · weight` a `GoodTx` built at a non-negative rate has a
+    non-negative fee (so `fee ≤ Budget` is a real bound and outputs never exceed inputs). -/
+theorem GoodTx.fee_nonneg {r : Req} {height rate : Int} {tx : Tx} (g : GoodTx r height rate tx)
+    (h0 : 0 ≤ rate) (hw : InI64 (r.wTx : Int)) (hp : InI64 (rate * r.wTx)) : 0 ≤ tx.fee :=
+  Int.le_trans (feeForWeight_nonneg h0 hw hp) g.fee_lower
+
+/-- every transaction of a ramp whose rates stay inside the int64 domain of `FeeForWeight`
+    (`hi · weight < 2^63`: always the case for the publisher ramps above, where `hi ≤ 2^27`)
+    pays a fee in `[0, Budget]`. -/
+theorem Ramp.fees {r : Req} {lo hi : Int} {em : Emitted} (h : Ramp r lo hi em) (h0 : 0 ≤ lo)
+    (hw : InI64 (r.wTx : Int)) (hp : hi * r.wTx < 9223372036854775808) :
+    ∀ e ∈ em, 0 ≤ e.2.fee ∧ e.2.fee ≤ r.budget := by
+  intro e he
+  obtain ⟨height, rate, h1, h2, g⟩ := h.mem e he
+  have hr0 : 0 ≤ rate := Int.le_trans h0 h1
+  have hle : rate * r.wTx ≤ hi * r.wTx := Int.mul_le_mul_of_nonneg_right h2 (Int.natCast_nonneg _)
+  have hge : 0 ≤ rate * r.wTx := Int.mul_nonneg hr0 (Int.natCast_nonneg _)
+  exact ⟨g.fee_nonneg hr0 hw (by simp only [InI64]; omega), g.fee_le_budget⟩
+
+/-- WITNESS that the domain cannot be dropped (reproduced on the real `TxPublisher`): a
+    caller-supplied starting rate of `2^55` sat/kw (`BumpFee` accepts any `uint64` `sat_per_vbyte`;
+    the start is not clamped to the ceiling — F-C18-start-above-ceiling) on a 439 wu sweep of one
+    100 000 sat input with budget 5 000: `FeeForWeight` overflows int64 to `-2 630 102 182 384 369`,
+    which passes both `requiredOutput + fee > totalInput` and the budget check, and a transaction
+    with a change output of 2.6·10^15 sat is handed to the backend. -/
+theorem overflowing_start_passes_budget_check_witness :
+    feeForWeight 36028797018963968 439 = -2630102182384369 ∧
+    (createAndCheckTx ⟨[⟨100000, none, none⟩], 5000, 250000, 510, some 36028797018963968, 439, 439, 294, none⟩
+      36028797018963968 500 .ok).1 = .ok ⟨[0], [(.change, 2630102182484369)], 500, -2630102182384369⟩ := by
+  decide
+
 /-! ## consistency of the reported result with the published transaction -/
 
 /-- what a `Published` / `Replaced` result claims is what the published transaction does. -/
